@@ -127,6 +127,28 @@ func c17One(x *ctx, c importCase) bool {
 			lc.Files["sub/keep.txt"] = "x"
 		}
 		lc.Main = "f0.yaml"
+	case "dir-member-missing-import", "dir-member-unparsable", "dir-member-missing-import-2", "dir-member-dangling-symlink-free":
+		// a file inside an imported directory is broken (or imports something broken): the closure
+		// contains a broken file, loading must fail
+		lc.Files["f0.yaml"] = "import: [sub]\ntasks:\n  t0:\n    command: echo 0\n"
+		lc.Files["sub/d1.yaml"] = "tasks:\n  d1:\n    command: echo d\n"
+		switch c.Special {
+		case "dir-member-missing-import":
+			lc.Files["sub/d2.yaml"] = "import: [nope.yaml]\ntasks:\n  d2:\n    command: echo d\n"
+			wantErr = true
+		case "dir-member-unparsable":
+			lc.Files["sub/d2.yaml"] = "tasks: [unclosed\n  x: {"
+			wantErr = true
+		case "dir-member-missing-import-2":
+			lc.Files["sub/d2.yaml"] = "import: [deep/x.yaml]\ntasks:\n  d2:\n    command: echo d\n"
+			lc.Files["sub/deep/x.yaml"] = "import: [gone.yaml]\ntasks:\n  dx:\n    command: echo x\n"
+			wantErr = true
+		default:
+			lc.Files["sub/d2.yaml"] = "tasks:\n  d2:\n    command: echo d\n"
+			wantTasks = []string{"t0", "d1", "d2"}
+		}
+		lc.Main = "f0.yaml"
+		c.How = "missing-or-unparsable"
 	case "twice", "two-spellings", "dir-and-file":
 		imp := map[string]string{"twice": "[sub/f1.yaml, sub/f1.yaml]", "two-spellings": "[sub/f1.yaml, sub/../sub/f1.yaml, ./sub/f1.yaml]", "dir-and-file": "[sub, sub/f1.yaml]"}[c.Special]
 		lc.Files["f0.yaml"] = "import: " + imp + "\ntasks:\n  t0:\n    command: echo 0\n"
@@ -178,7 +200,11 @@ func c17One(x *ctx, c importCase) bool {
 		x.violation("panic", r.site+":"+msgClass(r.panic), fmt.Sprintf("Loader.Load panicked in %s: %s (%s)", r.site, r.panic, c), c, false)
 		return true
 	case wantErr && r.err == nil:
-		x.violation("broken-import-ignored", fmt.Sprintf("how=%s", c.How), fmt.Sprintf("file %s is %s and reachable through imports but loading succeeded with tasks %v (%s)", c.fileName(c.Broken), c.How, r.tasks, c), c, false)
+		bf := c.Special
+		if c.Broken >= 0 {
+			bf = c.fileName(c.Broken)
+		}
+		x.violation("broken-import-ignored", fmt.Sprintf("how=%s", c.How), fmt.Sprintf("%s: a file in the import closure is %s but loading succeeded with tasks %v (%s)", bf, c.How, r.tasks, c), c, false)
 		return true
 	case !wantErr && r.err != nil:
 		x.violation("spurious-error", c.String(), fmt.Sprintf("loading failed: %v (%s)", r.err, c), c, false)
@@ -268,7 +294,7 @@ func unitC17(x *ctx) {
 			}
 		})
 	case "c17-special":
-		for _, s := range []string{"dir0", "dir1", "dir2", "dir-nested", "twice", "two-spellings", "dir-and-file"} {
+		for _, s := range []string{"dir0", "dir1", "dir2", "dir-nested", "twice", "two-spellings", "dir-and-file", "dir-member-missing-import", "dir-member-unparsable", "dir-member-missing-import-2", "dir-member-dangling-symlink-free"} {
 			do(importCase{Special: s, Broken: -1, Formats: yaml3})
 		}
 		for split := 0; split < 16; split++ {
